@@ -359,7 +359,7 @@ def run_case(case):
     cfg['same_flow_object'] = reuse
     nested = boot.rng(case['seed'], 'C07', 'nested', case['idx']).choice(
         [None, None, None, 'checkpoint_alone', 'segment_and_checkpoint', 'steps_argument', 'two_levels_deep',
-         'two_levels_deep_alone'])
+         'two_levels_deep_alone', 'inside_conditional'])
     cfg['checkpoint_in_nested_flow'] = nested
     if nested:
         cov['history']['checkpoint_in_nested_flow/' + nested] = 1
@@ -435,6 +435,9 @@ def run_case(case):
                 steps.append(d.Flow(d.Flow(seg(k), pseg(k), d.checkpoint('cp%d' % k, checkpoint_path=cpdir))))
             elif nested == 'two_levels_deep_alone':
                 steps += [seg(k), d.Flow(pseg(k), d.Flow(d.checkpoint('cp%d' % k, checkpoint_path=cpdir)))]
+            elif nested == 'inside_conditional':
+                # the checkpoint sits in an always-true conditional: it is chained onto the stream of the steps before it
+                steps += [seg(k), pseg(k), d.conditional(lambda dp: True, d.Flow(d.checkpoint('cp%d' % k, checkpoint_path=cpdir)))]
             elif nested == 'steps_argument':
                 # the segment is handed to the checkpoint as its `steps`: it runs after the links that precede it
                 steps.append(d.checkpoint('cp%d' % k, checkpoint_path=cpdir, steps=[seg(k), pseg(k)]))
@@ -519,6 +522,11 @@ def run_case(case):
         for k in range(ncp + 1):
             want['seg%d' % k] = total_rows if (last is None or k > last) else 0
             want['pkg%d' % k] = 1 if (last is None or k > last) else 0
+        if nested == 'inside_conditional':
+            # a conditional looks at the package the steps before it describe: their package phase runs in every run (their
+            # rows are not pulled once the checkpoint exists)
+            for k in range(ncp + 1):
+                want['pkg%d' % k] = 1
         if early_stop:
             # the checkpoints still capture everything; the segment after the last checkpoint sees what was asked for
             want['seg%d' % ncp] = sum(min(2, len(t)) for t in tables)
